@@ -327,6 +327,43 @@ def validate_protocol(rep, events, wd, tag):
     return tr
 
 
+def write_value_leg(rep, defs, wd):
+    """A method that takes a DiplomatWrite AND returns a value: accepted by the tool, compiled by the macro as (self, parameters,
+    writer) -> value.  The header has to declare exactly that (SigShape of Abi.tla: the writer is the last parameter whatever the
+    result is) -- only the declarations are compared; calling through a header with a missing parameter is undefined behaviour."""
+    r = lib.tlc("abi", "MC_Abi", "abi_wval.cfg", workers=2, coverage=False)
+    lib.tlc_expect_ok(r, "Abi writer + value")
+    rep.add_tlc("Abi/wval", r)
+    cases = r.printed["CASE"]
+    src, syms = abisig.module(defs, [(9000 + i, c["sig"]) for i, c in enumerate(cases)])
+    p = os.path.join(wd, "wval.rs")
+    open(p, "w").write(src)
+    out = os.path.join(wd, "wval_c")
+    t = lib.run_tool("c", p, out)
+    if t["rc"] != 0:
+        # "for every bridge module the tool accepts": a diagnostic about the shape is a legitimate answer
+        if "DiplomatWrite" in t["stderr"] and not t["panicked"]:
+            rep.extra["write_value"] = "rejected by the tool"
+            return 0
+        rep.violation({"leg": "write_value", "what": "C backend failed"}, {"stderr": t["stderr"][-1500:]})
+        return 0
+    protos = parse_protos(out)
+    for i, c in enumerate(cases):
+        sym = syms[9000 + i]
+        ret = c["sig"]["ret"]
+        key = {"leg": "write_value", "ret": ret["k"] + ":" + str(ret.get("p") or ret.get("n") or "")}
+        if sym not in protos:
+            rep.violation(dict(key, what="exported function not declared"), {"symbol": sym, "sig": c["sig"]})
+            continue
+        rty, ptys = protos[sym]
+        rep.nontriv("wval|" + json.dumps(c["sig"], sort_keys=True))
+        if len(ptys) != len(c["shape"]["params"]) or not ptys or "DiplomatWrite" not in ptys[-1]:
+            rep.violation(dict(key, what="the writer the macro compiles is missing from the C declaration"),
+                          {"symbol": sym, "sig": c["sig"], "declared": {"ret": rty, "params": ptys}, "spec_parameters": len(c["shape"]["params"]),
+                           "rust": [l for l in src.splitlines() if "fn f%d" % (9000 + i) in l]})
+    return len(cases)
+
+
 def run(rep, tier):
     wd = rep.wd
     rep.rule = ("cases = Abi.tla catalogue (206 structured-coverage signatures + TLC-simulated multi-parameter ones) x value vectors drawn "
@@ -344,6 +381,7 @@ def run(rep, tier):
     rn = lib.tlc("abi", "MC_Abi", "abi_neg.cfg", workers=4, coverage=False)
     lib.tlc_expect_violation(rn, "flag-first option encoding", "FlagLast")
     defs, cases = catalogue(rep, tier, 60 if tier == "quick" else 1500)
+    rep.evaluations += write_value_leg(rep, defs, wd)
     g, entries = make_entries(defs, cases, 2 if tier == "quick" else 4, lib.seed())
     B = 700
     total = 0
